@@ -123,7 +123,14 @@ func codecParametersFuzzySearch(
 			c.RTPCodecCapability.Channels,
 			c.RTPCodecCapability.SDPFmtpLine)
 
-		if needleFmtp.Match(cfmtp) {
+		// the codec specific matchers (H264, VP9, AV1) only compare their fmtp parameters
+		if needleFmtp.Match(cfmtp) &&
+			fmtp.ClockRateEqual(c.RTPCodecCapability.MimeType,
+				c.RTPCodecCapability.ClockRate,
+				needle.RTPCodecCapability.ClockRate) &&
+			fmtp.ChannelsEqual(c.RTPCodecCapability.MimeType,
+				c.RTPCodecCapability.Channels,
+				needle.RTPCodecCapability.Channels) {
 			return c, codecMatchExact
 		}
 	}
